@@ -55,6 +55,39 @@ def lib_fds(tmp, exclude=()):
     return roles
 
 
+class OpenTracker(object):
+    """interposes builtins.open: every file object opened on the scratch directory's .tdms / .tdms_index files while
+    the library runs is kept referenced, so a handle that only garbage collection would close still counts as open"""
+
+    def __init__(self, tmp):
+        import builtins
+        self.tmp = tmp
+        self.builtins = builtins
+        self.orig = builtins.open
+        self.files = []
+        self.active = False
+
+    def __enter__(self):
+        def tracked(file, *a, **kw):
+            fo = self.orig(file, *a, **kw)
+            try:
+                name = os.fspath(file) if not isinstance(file, int) else ""
+            except TypeError:
+                name = ""
+            if self.active and isinstance(name, str) and name.startswith(self.tmp) and \
+                    (name.endswith(".tdms") or name.endswith(".tdms_index")):
+                self.files.append((name, fo))
+            return fo
+        self.builtins.open = tracked
+        return self
+
+    def __exit__(self, *a):
+        self.builtins.open = self.orig
+
+    def open_roles(self):
+        return {("index" if n.endswith(".tdms_index") else "data") for n, fo in self.files if not fo.closed}
+
+
 def replay_lifecycle_case(case):
     from nptdms import TdmsFile, TdmsWriter, ChannelObject
     rec = case["rec"]
@@ -105,11 +138,14 @@ def replay_lifecycle_case(case):
             return s
 
         f = None
+        tracker = OpenTracker(tmp)
+        tracker.__enter__()
         for i, o in enumerate(rec["hist"]):
             op = o["op"]
             n += 1
             raised = None
             during = None
+            tracker.active = True
             try:
                 if op == "read":
                     f = TdmsFile.read(source())
@@ -134,12 +170,13 @@ def replay_lifecycle_case(case):
                         caller_streams.extend([target] + ([idx] if idx else []))
                     with TdmsWriter(target, index_file=idx) as w:
                         w.write_segment([ChannelObject("g", "c", np.arange(3, dtype=np.int32))])
-                        during = lib_fds(tmp, exclude)
+                        during = lib_fds(tmp, exclude) | tracker.open_roles()
                         if o["raises"]:
                             raise KeyError("body of the with-block fails")
             except Exception as ex:  # noqa
                 raised = ex
                 keep.append(ex)
+            tracker.active = False
             keep.append(f)
             step = {"step": i + 1, "hist": rec["hist"][:i + 1]}
             if bool(raised is not None) != bool(o["raises"]):
@@ -150,7 +187,7 @@ def replay_lifecycle_case(case):
                 fails.append((sig("descriptors-during-with", op), dict(step, cfg=cfg, expected=o["during"],
                                                                        observed=sorted(during))))
             if o["fds"] != ["unspecified"]:
-                now = lib_fds(tmp, exclude)
+                now = lib_fds(tmp, exclude) | tracker.open_roles()
                 if now != set(o["fds"]):
                     fails.append((sig("descriptors", op, leaked=sorted(now - set(o["fds"]))),
                                   dict(step, cfg=cfg, expected=o["fds"], observed=sorted(now), variant=variant)))
@@ -159,12 +196,21 @@ def replay_lifecycle_case(case):
                 if s.closed:
                     fails.append((sig("caller-stream-closed", op), dict(step, cfg=cfg, variant=variant)))
                     break
+        tracker.__exit__()
+        for _, fo in tracker.files:
+            try:
+                fo.close()
+            except Exception:  # noqa
+                pass
         for s in caller_streams:
             try:
                 s.close()
             except Exception:  # noqa
                 pass
     finally:
+        import builtins
+        if getattr(builtins.open, "__name__", "") == "tracked":
+            builtins.open = io.open
         del keep[:]
         shutil.rmtree(tmp, ignore_errors=True)
     key = zlib.crc32(repr((cfg, [(o["op"], o["raises"]) for o in rec["hist"]])).encode())
